@@ -503,11 +503,24 @@ class C13:
             g = Group("la%d" % j, "zlib-lookalike", {"headers": [[a.hex(), b.hex()] for a, b in hsl], "data": None, "data_len": len(payload), "data_crc": zlib.crc32(payload), "layers": ["bare deflate starting %s" % enc[:2].hex()]})
             g.add("decode", "DECODE %d %s %s" % (tree, hdrs_field(hsl), hx(enc)))
             groups.append(g)
+        # gzip bodies of several members, as `cat a.gz b.gz`, pigz and some servers write them (implementation only)
+        for k2 in range(n_for(tier, 12, 300)):
+            parts = [rand_body(rng)[:200] for _ in range(rng.randint(2, 3))]
+            enc = b"".join(gzip.compress(p0, rng.pick([0, 1, 6, 9])) for p0 in parts)
+            g = Group("mm%d" % k2, "gzip-multi-member", {"data": b"".join(parts).hex(), "a": parts[0].hex(), "members": len(parts)})
+            g.add("decode", "DECODE %d %s %s" % (tree, hdrs_field([(b"Content-Encoding", rng.pick([b"gzip", b"GZIP"]))]), hx(enc)), {"nocmp": True})
+            groups.append(g)
         return groups
 
     @staticmethod
     def oracle(group, res, model=None):
         fails = []
+        if group.kind == "gzip-multi-member":
+            out = strip_ann(res[group.tag(0)]).split(" | h=")[0].strip()
+            want = "OK " + group.meta["data"] if group.meta["data"] else "OK"
+            if out != want:
+                fails.append(Failure(group, "multi-member", "a gzip body of %d members (RFC 1952 section 2.2) is not decoded to the concatenation of their contents: `%s`" % (group.meta["members"], out[:40]), [0]))
+            return fails
         if group.kind == "zlib-lookalike":
             # refusal is what repair F6 made the code do (correspondence says so); if it ever answers, the only right
             # answer is the payload of the bare-deflate reading
@@ -717,10 +730,46 @@ class C15:
                 e2[b // 8] ^= 1 << (b % 8)
                 g.add("bitflip", "DECODE %d %s %s" % (tree, hdrs_field(hs), hx(bytes(e2))), {"bit": b})
             groups.append(g)
+        # a gzip member followed by more: junk, a second member, a damaged or truncated second member.  The crate reads the
+        # first member and ignores the rest; RFC 1952 would also allow the concatenation of intact members.  Never
+        # acceptable: bytes of a member whose own check fails or that is cut short (tenth round: further members appended
+        # while they were being read, kept when their check failed).  Implementation only; the accepted outcomes are the oracle.
+        for k in range(n_for(tier, 40, 1000)):
+            a = rand_body(rng)[:300] or b"first"
+            b2 = (rand_body(rng)[:300] or b"second") + b"!"
+            ma, mb = gzip.compress(a), gzip.compress(b2)
+            bad_crc = bytearray(mb); bad_crc[-8] ^= 0x01
+            bad_len = bytearray(mb); bad_len[-1] ^= 0x40
+            bad_data = bytearray(mb); bad_data[len(mb) // 2] ^= 0x10
+            variants = [("intact second member", mb, True), ("second member with altered CRC-32", bytes(bad_crc), False), ("second member with altered length", bytes(bad_len), False),
+                        ("second member with a flipped data bit", bytes(bad_data), False), ("second member cut short", mb[:rng.randint(11, len(mb) - 1)], False),
+                        ("signature of a second member only", b"\x1f\x8b\x08", False), ("junk", b"junk after the member", False)]
+            g = Group("mm%d" % k, "gzip-multi-member", {"a": a.hex(), "b": b2.hex(), "variants": [v[0] for v in variants], "intact": [v[2] for v in variants]})
+            for what, tail, ok in variants:
+                g.add(what, "DECODE %d %s %s" % (tree, hdrs_field([(b"Content-Encoding", b"gzip")]), hx(ma + tail)), {"nocmp": True})
+            groups.append(g)
         return groups
 
     @staticmethod
     def oracle(group, res):
+        if group.kind == "gzip-multi-member":
+            fails = []
+            a, b2 = unhex(group.meta["a"]), unhex(group.meta["b"])
+            for i2, what in enumerate(group.meta["variants"]):
+                out = strip_ann(res[group.tag(i2)]).split(" | h=")[0]
+                # RFC 1952: a gzip file is a series of members; its content is the concatenation of theirs, and damage to any
+                # member is damage.  (The crate reads the first member only: known finding KF5 — recognised by the answer
+                # being exactly the first member's content.)  Bytes after the last member that are no member are not judged.
+                if what == "junk":
+                    allowed = ["OK " + hx(a), "ERR"]
+                elif group.meta["intact"][i2]:
+                    allowed = ["OK " + hx(a + b2)]
+                else:
+                    allowed = ["ERR"]
+                if out.strip() not in [x.strip() for x in allowed]:
+                    fails.append(Failure(group, "multi-member", "a gzip member followed by %s is answered with `%s`, expected %s" % (
+                        what, out[:40], "both contents" if group.meta["intact"][i2] else "a failure" if what != "junk" else "the content or a failure"), [i2]))
+            return fails
         fails = []
         meta = group.meta
         data = unhex(meta["data"])
@@ -856,6 +905,11 @@ def unicode_lookalike(rng, token):
     return (t[:i] + b + t[i + len(a):]).encode()
 
 
+LEGACY_BODIES = [b"\x1b$BF|K\\\x1b(B", b"\x1b", b"\x1b$Z", b"\x0e", b"\x0f", b"abc\x1b(Bdef", b"\x1b$B", b"plain ascii text", b"", b"\x93\xfa\x96\x7b", b"\x93", b"\xc6\xfc\xcb\xdc",
+                 b"\xa4", b"\xc4\xe3\xba\xc3", b"\x81\x30\x81\x30", b"\x81\x30", b"h\x00i\x00", b"\x00h\x00i", b"h\x00i", b"\xd8\x00", b"\x00\xd8\x00\xdc", b"\xff\xfeh\x00", b"\xfe\xff\x00h",
+                 b"\x80\xff", b"\xa0\xa1", bytes(range(0x20, 0x7f)), bytes(range(0x80, 0x100))]
+
+
 def gen_content_type(rng):
     ty = rng.pick([b"text", b"text", b"text", b"TEXT", b"Text", b"tEXt", b"application", b"texts", b"tex", b"", b" text", b"text ", b"image"])
     sub = rng.pick([b"plain", b"html", b"", b"x-y", b"plain/extra", b"*", b"event-stream", b"Event-Stream", b"event-stream ", b"csv", b"xml", b"javascript", b"calendar"])
@@ -936,11 +990,36 @@ class C16:
     def generate(rng, tier, tree, ov):
         groups = []
         n = n_for(tier, 8000, 200000)
+        def text_group(gid, kind, hs, body):
+            g = Group(gid, kind, {"headers": [[a.hex(), b.hex()] for a, b in hs], "body": body.hex() if len(body) < 5000 else None, "body_len": len(body)})
+            g.add("text", "TEXT %s %s" % (hdrs_field(hs), hx(body)))
+            ref = ref_text(hs, body)
+            if ref[0] == "ABSTAIN":
+                # a label the dependency knows and this reference does not decode: the dependency used directly (label
+                # lookup + strict decoding without BOM handling) is the reference; the crate's glue must add nothing
+                g.add("ref", "TEXTREF %s %s" % (hx(ref[1]), hx(body)), {"nocmp": True})
+            groups.append(g)
+            return g
         for k in range(n):
             hs, body = gen_text_case(rng)
-            g = Group("x%d" % k, "text", {"headers": [[a.hex(), b.hex()] for a, b in hs], "body": body.hex()})
-            g.add("text", "TEXT %s %s" % (hdrs_field(hs), hx(body)))
-            groups.append(g)
+            if rng.chance(1, 6):
+                body = rng.pick(LEGACY_BODIES) + (rng.pick(LEGACY_BODIES) if rng.chance(1, 3) else b"")
+            text_group("x%d" % k, "text", hs, body)
+        # every legacy label with bodies that are stateful, multi-byte, cut inside a character, or plain ASCII
+        j = 0
+        for lab in OTHER_LABELS + [b"iso-2022-jp", b"csiso2022jp", b"shift_jis", b"euc-jp", b"gbk", b"gb18030", b"big5", b"euc-kr", b"utf-16le", b"utf-16be", b"utf-16", b"x-user-defined", b"replacement", b"koi8-r", b"windows-1251", b"iso-8859-2", b"macintosh"]:
+            for body in LEGACY_BODIES:
+                text_group("lg%d" % j, "text-legacy", [(b"Content-Type", b"text/plain; charset=" + gen.randcase(rng, lab))], body)
+                j += 1
+        # body lengths at and around powers of two and the integer literals of the source, ending inside a multi-byte character
+        # (a decoder fed block by block must still be told where the input ends)
+        from . import srcdict
+        sizes = sorted(set(v + d for v in [256, 512, 1024, 2048, 4096, 8192, 16384, 65536] + [x for x in srcdict.load()["ints"] if 16 <= x <= 200000] for d in (-1, 0, 1)))
+        for sz in sizes:
+            for lab, tail in ((b"utf-8", b"\xc3"), (b"utf-8", b"\xe2\x82"), (b"shift_jis", b"\x93"), (b"utf-8", "\u00e9".encode())):
+                if sz > len(tail):
+                    text_group("sz%d" % j, "text-sized", [(b"Content-Type", b"text/plain; charset=" + lab)], b"a" * (sz - len(tail)) + tail)
+                    j += 1
         # every known label, the parameter name and the type with each ASCII character in turn replaced by a multi-byte
         # character that a case mapping or a character-class predicate treats like it: such a token is never the ASCII one
         j = 0
@@ -983,8 +1062,15 @@ class C16:
     def oracle(group, res):
         fails = []
         hs = [(unhex(a), unhex(b)) for a, b in group.meta["headers"]]
-        body = unhex(group.meta["body"])
         out = strip_ann(res[group.tag(0)])
+        if len(group.members) > 1 and group.members[1].role == "ref":
+            want = strip_ann(res[group.tag(1)])
+            if out != want:
+                fails.append(Failure(group, "text", "the crate answers `%s` where the charset's decoder, used directly on the body, answers `%s`" % (out[:60], want[:60]), [0, 1]))
+            return fails
+        if group.meta["body"] is None:
+            return fails
+        body = unhex(group.meta["body"])
         ref = ref_text(hs, body)
         if out.startswith("SOME"):
             text = unhex(out[5:]) if len(out) > 5 else b""
